@@ -45,6 +45,31 @@ class HarnessError(Exception):
     pass
 
 
+class CaseTimeout(BaseException):
+    """A single case exceeded its wall-clock guard: inconclusive, never a verdict."""
+
+
+class time_guard:
+    """with time_guard(seconds): ...  raises CaseTimeout in the main thread of a worker process."""
+
+    def __init__(self, seconds):
+        self.seconds = seconds
+
+    def _fire(self, signum, frame):
+        raise CaseTimeout()
+
+    def __enter__(self):
+        import signal
+        self._old = signal.signal(signal.SIGALRM, self._fire)
+        signal.setitimer(signal.ITIMER_REAL, self.seconds)
+
+    def __exit__(self, *exc):
+        import signal
+        signal.setitimer(signal.ITIMER_REAL, 0)
+        signal.signal(signal.SIGALRM, self._old)
+        return False
+
+
 def jhash(obj) -> str:
     return hashlib.sha1(json.dumps(obj, sort_keys=True, default=str).encode()).hexdigest()[:16]
 
